@@ -106,6 +106,7 @@ struct Run {
   int lanes = 2;
   bool serial = false;
   bool traceOn = false;
+  bool cancelOnFailure = false;   // the harness delegate cancels the build on the first command failure
   bool cliDriver = false;   // builds go through `llbuild buildsystem build` (lib/Commands/BuildSystemCommand.cpp) instead of the harness delegate
   int cliBuilds = 0;
   std::vector<std::string> baseEnv;
@@ -175,6 +176,7 @@ struct Run {
     if (property == "C04" && (clause == "C08.1" || clause == "C08.3" || clause == "C09.2") && crashes > 0) clause = "C04.5";   // no clean-build result after the crash
     if (property == "C11" && clause == "C09.2") clause = "C11.2";       // a change to a discovered path did not re-run the command
     if (property == "C10" && clause == "C08.1" && everFailed) clause = "C10.4";   // no convergence after repair
+    if (property == "C10" && clause == "C09.2" && everFailed) clause = "C10.3";   // what failed (or was downstream of it) was not attempted again
     if (property == "C05" && (clause == "C08.1" || clause == "C08.3" || clause == "C09.2") && cancelledBuilds > 0) clause = "C05.5";   // a later build is not clean
     bool mine = clause.compare(0, property.size() + 1, property + ".") == 0;
     if (const char* promote = getenv("VSIM_PROMOTE"))   // development aid: report another property's clause as a violation
@@ -344,6 +346,12 @@ void Delegate::error(StringRef filename, const Token& at, const Twine& message) 
 void Delegate::hadCommandFailure() {
   run->ev("had-command-failure");
   BuildSystemFrontendDelegate::hadCommandFailure();
+  // what `llbuild buildsystem build`'s delegate does: stop the build on the first failure
+  if (run->cancelOnFailure && !run->bCancelIssued) {
+    run->bCancelIssued = true;
+    run->ev("cancel-on-failure");
+    cancel();
+  }
 }
 void Delegate::commandStarted(Command* c) {
   run->ev("command-started " + c->getName().str());
@@ -541,6 +549,7 @@ void Run::load() {
   serial = cfg->getb("serial");
   traceOn = cfg->getb("trace");
   cliDriver = cfg->getb("cli_driver") && (property == "C08" || property == "C09" || property == "C10");
+  cancelOnFailure = cfg->getb("cancel_on_failure") && property == "C10";
   for (auto& e : cfg->geta("base_env")) baseEnv.push_back(e.s);
   if (const Json* d = plan.find("desc")) desc = Desc::fromJson(*d);
   simfs::fs().mkdirs(kWork);
@@ -638,7 +647,7 @@ void Run::opBuild(const Json& op) {
       FileState d = stateOf(c->outputs[0]);
       bool run = rit == recs.end() || !rit->second.ok || rit->second.defHash != defHashWithNodes(*c) || !d.exists || d.type != (int)simfs::Inode::Dir;
       predictRun[c->name] = run;
-      predictFail[c->name] = false;
+      predictFail[c->name] = d.exists && d.type != (int)simfs::Inode::Dir;   // cannot create a directory where a file is
       continue;
     }
     if (c->tool != "shell") {
@@ -1153,7 +1162,8 @@ void Run::opBuild(const Json& op) {
         r.outs[c->outputs[0]] = stateOf(c->outputs[0]);
         recs[c->name] = r;
       } else if (ran.count(c->name)) {
-        recs[c->name].ok = false;
+        if (bCancelIssued) softAfterFailure.insert(c->name);
+        else recs[c->name].ok = false;
       }
       continue;
     }
@@ -1188,7 +1198,11 @@ void Run::opBuild(const Json& op) {
       }
       recs[c->name] = r;
     } else if (ran.count(c->name) || interrupted.count(c->name)) {
-      recs[c->name].ok = false;
+      // A failure is recorded and the command re-attempted - unless the build was cancelled (a client's cancel(), or a delegate
+      // that cancels on the first failure): the engine then drops completions it has not processed, an earlier successful
+      // result may still stand, and if nothing else changed it is legitimately up to date.  Either, until it runs again.
+      if (bCancelIssued) softAfterFailure.insert(c->name);
+      else recs[c->name].ok = false;
     }
   }
   // A command that finished around a cancellation may or may not have had its result recorded (the engine drops what it
@@ -1206,7 +1220,7 @@ void Run::opBuild(const Json& op) {
     // content is identical (checksum-only mode) is not prescribed.
     // After a cancellation nothing is persisted for tasks that did not complete, so the old result of a consumer
     // may legitimately still stand: no claim either way until it runs again.
-    if (reached.count(t) && !(bCancelIssued && !ran.count(t) && !interrupted.count(t))) recs[t].ok = false;
+    if (reached.count(t) && !bCancelIssued) recs[t].ok = false;
     else softAfterFailure.insert(t);
   }
 
@@ -1292,7 +1306,7 @@ void Run::execute() {
     } else if (kind == "edit") {
       std::string p = abs(util::unhex(op.gets("path")));
       simfs::fs().mkdirs(p.substr(0, p.rfind('/')));
-      if (isLinkNode(p)) simfs::fs().removeAll(p);   // something else takes the link's place (not: write through it)
+      if (isLinkNode(p) || isMkdirNode(p)) simfs::fs().removeAll(p);   // something else takes the link's / directory's place
       simfs::fs().writeFile(p, util::unhex(op.gets("content")));
       sourceEdits++;
       ev("edit " + util::printable(p, 60));
@@ -1866,7 +1880,8 @@ struct Gen {
     cfg.set("lanes", (int64_t)rng.range(1, 4));
     cfg.setb("serial", rng.chance(250));
     cfg.setb("trace", rng.chance(100));   // build-system tracing to a file
-    cfg.setb("cli_driver", rng.chance(150));
+    cfg.setb("cli_driver", rng.chance(property == "C10" ? 250 : 150));
+    cfg.setb("cancel_on_failure", rng.chance(300));
     cfg.set("policy", (int64_t)rng.below(3));
     static const int sticky[] = {500, 900, 990};
     cfg.set("sticky", sticky[rng.below(3)]);
@@ -2005,6 +2020,13 @@ struct Gen {
           hist.push(Json::obj().set("op", "edit").set("path", util::hex(m)).set("content", util::hex(sources[m])));
         }
         addBuild();
+      } else if (roll < 660 && roll >= 640 && mkdirCommands > 0 && desc.byName("M1") && property == "C10") {
+        // a file sits where a mkdir command must create its directory: the command fails; later the directory is made by hand
+        hist.push(Json::obj().set("op", "edit").set("path", util::hex("keep.dir")).set("content", util::hex("in the way " + std::to_string(counter++) + "\n")));
+        addBuild();
+        if (rng.chance(400)) addBuild();
+        hist.push(Json::obj().set("op", "blockdir").set("path", util::hex("keep.dir")));
+        addBuild();
       } else if (roll < 620 && roll >= 600 && mkdirCommands > 0 && desc.byName("M0")) {
         // the directory disappears with everything in it
         hist.push(Json::obj().set("op", "delete").set("path", util::hex(rng.chance(500) ? "gen.dir" : "keep.dir")));
@@ -2059,8 +2081,25 @@ struct Gen {
         if (vc) {
           hist.push(Json::obj().set("op", "delete").set("path", util::hex(vc->outputs[0])));
         }
+        // other commands see an edited source in the failing build (and may complete in it), and the source is edited
+        // again on the way to the repair: what they recorded in the failing build must not count as up to date
+        std::string touched;
+        if (property == "C10" && rng.chance(500)) {
+          std::vector<std::string> cs;
+          for (auto& s0 : sources)
+            if (s0.first.size() > 2 && s0.first.substr(s0.first.size() - 2) == ".c") cs.push_back(s0.first);
+          if (!cs.empty()) {
+            touched = cs[rng.below(cs.size())];
+            sources[touched] = freshContent("pre-failure edit", {});
+            hist.push(Json::obj().set("op", "edit").set("path", util::hex(touched)).set("content", util::hex(sources[touched])));
+          }
+        }
         addBuild();
         if (rng.chance(500)) addBuild();
+        if (!touched.empty()) {
+          sources[touched] = freshContent("repair edit", {});
+          hist.push(Json::obj().set("op", "edit").set("path", util::hex(touched)).set("content", util::hex(sources[touched])));
+        }
         hist.push(Json::obj().set("op", "unfail_all"));
         addBuild();
       }
